@@ -7,72 +7,72 @@ HERE = os.path.dirname(os.path.dirname(os.path.abspath(__file__)))
 CHECKS = {
  "C11": ("inproc", "exploration",
    "online invariant monitor on hooked LRU state + eviction-event replay against a reference recency list",
-   "Every size 1..64 (thorough 1..300) plus large sizes, four access patterns each, >=50*S operations: resident count read under each shard's own lock after every operation and every eviction event compared with a replayed per-shard LRU; then end-to-end through real servers with tiny caches (with and without a store). Holds on the executions produced, not a proof.",
+   "Every size 1..64 (thorough 1..300) plus large sizes, four access patterns each, >=50*S operations: resident count read under each shard's own lock after every operation and every eviction event compared with a replayed per-shard LRU; a reload that configures the same cache name with another size (bound = the larger size, whichever is in effect); then end-to-end through real servers with tiny caches (with and without a store). Holds on the executions produced, not a proof.",
    "trusts lru.Cache.Len read through the tag-guarded VerifStats hook and the OnEvicted callback of groupcache; sequential access at the dispatcher level (concurrent access is C06/C20)",
    "DESIGN.md 6/C11"),
  "C14": ("inproc", "exploration",
    "reference-model monitor over exhaustive/random lookups + end-to-end origin observation",
-   "Exhaustive over ordered tuples of <=3 location shapes (2 hosts x 3 prefixes), name subsets and 15 queries against an independent routing predicate (any member of the best class accepted), sampled 4-tuples and random larger universes with duplicate names; then random configurations through a running server with one origin per location: which origin saw the request, 5xx and no upstream contact when nothing matches.",
+   "Exhaustive over ordered tuples of <=3 location shapes (2 hosts x 3 prefixes), name subsets and 15 queries against an independent routing predicate (any member of the best class accepted), sampled 4-tuples and random larger universes with duplicate names; then random configurations applied as reloads to a running server with one origin per location, incl. percent-encoded request URIs (matched as sent): which origin saw the request, 5xx and no upstream contact when nothing matches.",
    "the reference predicate encodes the statement (class order prefix+host < prefix < host < none); ties inside a class are not judged",
    "DESIGN.md 6/C14"),
  "C04": ("inproc", "exploration",
    "offline replay of recorded client/origin histories against the cache-entry reference model under a virtual clock; directed hook-point schedule; interval-sound monitor under a ticking clock",
-   "Generated timed histories (lifetimes 1..2^31-1, origin Age none/0/1/T-1, advances landing before/at/after the expiry second, bursts of 1-8) replayed exactly against the entry model in both directions (fresh => hit of the epoch's fetch with Age = elapsed, expired => exactly one refetch that replaces the entry); a directed schedule puts a clock tick between lookup and answer (with and without a refetch in between); a concurrent mode with a ticking clock is judged with interval bounds.",
-   "pike's only clock seam (cache.nowUnix) is virtualised by a tag-guarded hook; no eviction (cache 100000 >> keys); Age arithmetic when the origin sent its own Age is not judged",
+   "Generated timed histories (lifetimes 1..2^31-1, origin Age none/0/1/T-1, advances landing before/at/after the expiry second, bursts of 1-8) replayed exactly against the entry model in both directions (fresh => hit of the epoch's fetch with Age = elapsed, expired => exactly one refetch that replaces the entry); a directed schedule puts a clock tick between lookup and answer (with and without a refetch in between); a concurrent mode with a ticking clock and a hostile mode in which every clock reading advances the clock are judged with interval bounds. Histories also run against a cache whose store keeps records past their expiry and against a tiny cache that is evicted between steps; lifetimes also come from s-maxage with a contradicting max-age.",
+   "pike's only clock seam (cache.nowUnix) is virtualised by a tag-guarded hook; no eviction (cache 100000 >> keys); Age arithmetic when the origin sent its own Age is not judged; a premature refetch of a fresh entry is counted, not judged (that is C01)",
    "DESIGN.md 6/C04"),
  "C01": ("inproc", "exploration",
    "origin-side in-flight overlap monitor + per-epoch exactly-once accounting + porcupine linearizability of recorded histories; hook-point directed schedule; race detector",
-   "Bursts of 2-64 identical cold requests on 1-4 keys over 1-3 epochs with the fetch held at the origin until the hook counter shows every other request parked (so coalescing is really exercised), jitter at four hook points between pike's critical sections; the directed schedule of the quantifier (expiry between a waiter's wake-up and its resumption while the next fetcher is in flight); staggered clients with a concurrent clock advancer checked per key with porcupine. Evidence lists parked waiters and distinct interleaving signatures.",
+   "Bursts of 2-64 identical cold requests on 1-4 keys over 1-3 epochs with the fetch held at the origin until the hook counter shows every other request parked (so coalescing is really exercised), jitter at four hook points between pike's critical sections; directed schedules: expiry between a waiter's wake-up and its resumption while the next fetcher is in flight (the quantifier's case), expiry between the dispatcher lookup and the entry lookup, and clock jumps of 5 s to 1 h while a fetch is in flight followed by new arrivals; staggered clients with a concurrent clock advancer checked per key with porcupine. Evidence lists parked waiters and distinct interleaving signatures.",
    "virtual clock and hook points (tag-guarded); no eviction or purge during a fetch (cache 100000 >> keys, asserted through the eviction hook); interleavings are those the stressors produce plus the directed one",
    "DESIGN.md 6/C01"),
  "C07": ("inproc", "exploration",
    "reference-model replay of recorded histories + origin in-flight monitor with all contacts held (not-queued oracle) + hooked entry state + porcupine",
-   "Histories for seven configured periods (incl. non-positive and sub-second => 300 s): probes answered uncacheable / without Cache-Control / 5xx / protocol error / cacheable, bursts of 1-24 at mark+0, +1, +P-1, +P and +P+1; during the period the origin holds every contact until all N of the burst are in flight together (independent, not queued) and the hook counter shows nobody parked; at +P+1 exactly one probe is in flight and N-1 are parked; staggered porcupine histories with a concurrent clock advancer.",
+   "Histories for seven configured periods (incl. non-positive and sub-second => 300 s): probes answered uncacheable / without Cache-Control / 5xx / protocol error / cacheable, bursts of 1-24 at mark+0, +1, +P-1, +P and +P+1; probes also fail by a truncated body (abort panic in the handler); during the period the origin holds every contact until all N of the burst are in flight together (independent, not queued) and the hook counter shows nobody parked; at +P+1 exactly one probe is in flight and N-1 are parked; two instances keep their markers in a store behind a tiny cache that is evicted inside the period; staggered porcupine histories with a concurrent clock advancer.",
    "virtual clock and hook points; no eviction; a transport-level retry of one request counts as one contact",
    "DESIGN.md 6/C07"),
  "C02": ("inproc", "fault_enumeration",
    "conservation monitor (every call event has a return event) + quiescent invariant on hooked entry state + follow-up probe, over enumerated fetch outcomes x waiter positions; goroutine dump only as witness",
-   "Enumerates 9 fetch outcomes (cacheable, uncacheable, 5xx, upstream protocol error, undecodable body = no response object, hang beyond ProxyTimeout, panic at the proxy hook, truncated upstream body = net/http abort panic, fetcher's client dropping its connection) x 4 waiter positions (parked; one waiter registered but not yet receiving while the completion runs; the same with a purge of the key; arriving after completion), then random outcome sequences across epochs on one key. Verdict: all requests returned, entry status != fetching and no registered waiters at quiescence, each waiter either got the fetched response or made its own upstream contact, follow-up served normally.",
+   "Enumerates 9 fetch outcomes (cacheable, uncacheable, 5xx, upstream protocol error, undecodable body = no response object, hang beyond ProxyTimeout, panic at the proxy hook, truncated upstream body = net/http abort panic, fetcher's client dropping its connection) x 7 waiter situations (parked; one waiter registered but not yet receiving while the completion runs; the same with a purge of the key; arriving after completion; a coalesced client dropping its connection; the fetching entry evicted from its shard; the cache clock jumping two minutes during the fetch followed by a late arrival), then random outcome sequences across epochs on one key. Verdict: all requests returned, the fetch completion ran to its end (hook counters) with the entry lock free, entry status != fetching and no registered waiters at quiescence, each waiter either got the fetched response or made its own upstream contact, follow-up served normally.",
    "liveness restated as bounded progress at quiescence (20 s watchdog only triggers the state inspection); termination without ProxyTimeout against a never-answering upstream is not demanded",
    "DESIGN.md 6/C02"),
  "C18": ("inproc", "exploration",
    "reference-model replay + store inspection + ordering check on event sequence numbers + porcupine linearizability per (cache,key)",
-   "Three caches (without and with a scripted store) behind three servers sharing the Host, purges through the real admin DELETE /cache: sequential purge variants (named, unnamed, absent cache, absent key, repeated) with the persisted record inspected and the next request on every cache and on a neighbour key judged by the entry model; purge issued while the fetch is held at the origin with parked waiters (must return before the release; nobody stranded); concurrent histories of requests, purges and clock advances checked per (cache,key) with porcupine.",
+   "Three caches (without and with a scripted store) behind three servers sharing the Host, purges through the real admin DELETE /cache: sequential purge variants (named, unnamed, absent cache, absent key, repeated) with the persisted record inspected and the next request on every cache and on a neighbour key judged by the entry model; purge issued while the fetch is held at the origin with parked waiters (must return before the release; nobody stranded); a lookup issued while the purge sits in a slow store delete, and a purge right after a fill whose store write is slow; concurrent histories of requests, purges and clock advances checked per (cache,key) with porcupine.",
    "which way a purge concurrent with a fetch is ordered is not judged (linearizability leaves it open); in-memory scripted store stands for the persistent one",
    "DESIGN.md 6/C18"),
  "C03": ("inproc", "exploration",
    "differential monitor: independent token-level shareability predicate vs observed reuse; origin log vs client log for exactly-once and label truthfulness",
-   "Generated upstream header sets (lifetime, blocking, harmless and extension directives in any order, casing, separators, 1-3 lines, quoted arguments, duplicates; Set-Cookie incl. an empty first line; valid and invalid Age; values 0..20 digits; Expires/Last-Modified; 12 status codes; 7 methods), each on a fresh URL, first as one request or a burst of 3 and then repeated: a reuse of the first response is a violation unless the predicate says shareable; every hit has no upstream contact, every other successful answer exactly one, non-GET/HEAD are forwarded exactly once each.",
+   "Generated upstream header sets (lifetime, blocking, harmless and extension directives in any order, casing, separators, 1-3 lines, quoted arguments, duplicates; Set-Cookie incl. an empty first line; valid and invalid Age; values 0..20 digits; Expires/Last-Modified; 12 status codes; 7 methods), each on a fresh URL, first as one request or a burst of 3 and then repeated: a reuse of the first response is a violation unless the predicate says shareable; every hit has no upstream contact, every other successful answer exactly one, non-GET/HEAD are forwarded exactly once each - also when the upstream reads the request and drops the connection.",
    "only stored => shareable is judged (the converse is counted); duplicate directives with different values, unparsable numbers and invalid Age are left unjudged",
    "DESIGN.md 6/C03"),
  "C13": ("inproc", "exploration",
    "decision-table monitor (reference table vs HTTPResponse.Fill and vs the running server) + compressor call counters (hook) + byte comparison with the best-compression profile",
-   "The table dimensions of the statement are enumerated completely at the Fill level (12 Accept-Encoding values incl. tokens that merely contain 'gzip', 7 stored-variant subsets, 4 sizes around two thresholds, default/custom filter, 6 content types, direct and after Cacheable()) with random bodies per cell; end-to-end through servers with default and configured thresholds/filters: compressor call counters around every hit (no per-request recompression), stored variants byte-compared with the best-compression profile's output.",
+   "The table dimensions of the statement are enumerated completely at the Fill level (14 Accept-Encoding values incl. tokens that merely contain 'gzip' and weighted codings, 7 stored-variant subsets, 4 sizes around two thresholds, default/custom filter, 6 content types, direct and after Cacheable()) with random bodies per cell; end-to-end through servers with default and configured thresholds/filters: compressor call counters around every hit (no per-request recompression) and around bursts of coalesced requests on cold compressible keys (exactly one gzip and one br run), stored variants byte-compared with the best-compression profile's output.",
    "where the raw length and the lengths pike can see straddle the threshold both outcomes are accepted; Accept-Encoding without q-values",
    "DESIGN.md 6/C13"),
  "C05": ("inproc", "exploration",
    "end-to-end differential monitor: client-side decode with reference decoders against the origin's logged original; header multiset comparison",
-   "Generated (body length incl. threshold neighbours and 2 MiB, kind incl. >1000x compressible, upstream encoding identity/gzip/br/lz4/zst/snz, content type, status, cacheable or not, GET/POST) on six servers (min-length default/1/100/64kb, custom filter, compress levels 1, 9/11, out of range, tiny cache with store); every path of the statement: fetching request and coalesced waiters, later hits, hit after eviction and restore from the store, hit-for-pass, passed; each request with its own Accept-Encoding list. Judged: status, decoded body identical, Content-Encoding among the accepted tokens, Content-Length, end-to-end headers as multiset with per-name order.",
+   "Generated (body length incl. threshold neighbours and 2 MiB, kind incl. >1000x compressible, upstream encoding identity/gzip/br/lz4/zst/snz, content type, status, cacheable or not, GET/POST) on six servers (min-length default/1/100/64kb, custom filter, compress levels 1, 9/11, out of range, tiny cache with store); upstream gzip also as multi-member streams; every path of the statement: fetching request and coalesced waiters, later hits, hits on entries stored much earlier in the run, an alias stress phase (many small compressible entries stored in quick succession, read back sequentially and by concurrent identity clients), hit after eviction and restore from the store, hit-for-pass, passed; each request with its own Accept-Encoding list. Judged: status, decoded body identical, Content-Encoding among the accepted tokens, Content-Length, end-to-end headers as multiset with per-name order.",
    "reference codecs for br/lz4/zst/snz are the libraries pike links (self-checked by round trip); Date/Connection/Content-Length/Content-Encoding/Age/X-Status and hop-by-hop headers excluded",
    "DESIGN.md 6/C05"),
  "C15": ("inproc", "exploration",
    "differential monitor: origin request log vs reference transformation of the client request; client response vs origin response + configured headers; second-client probe after conditional/Range requests",
-   "Seven locations (unchanged, the two documented rewrite forms, literal swap, added request/response headers, added query parameters, upstream Accept-Encoding override); generated methods, bodies up to 1 MiB, multi-valued and credential headers, escaped paths, queries with repeated keys/escapes/value-less parameters; conditional (matching and non-matching ETag / Last-Modified) and Range (first bytes, suffix, multi-range, If-Range) headers on cold, hit and hit-for-pass keys against an http.ServeContent origin; after client A a plain client B must receive the full 200.",
+   "Seven locations (unchanged, the two documented rewrite forms, literal swap, added request/response headers, added query parameters, upstream Accept-Encoding override); generated methods, bodies up to 1 MiB, multi-valued and credential headers, escaped paths, queries with repeated keys/escapes/value-less parameters; chunked request bodies; conditional (matching and non-matching ETag / Last-Modified, ETag mismatch with matching Last-Modified) and Range (first bytes, suffix, multi-range, If-Range) headers on cold, hit and hit-for-pass keys (also keys whose upstream turns cacheable during the period) against an http.ServeContent origin; after client A a plain client B must receive the full 200.",
    "not judged: malformed queries, If-Match/412, X-Forwarded-For/User-Agent, upstream Accept-Encoding when the client sent none, conditional headers on a cold uncacheable fetch, 304 for HEAD",
    "DESIGN.md 6/C15"),
  "C06": ("inproc", "exploration",
    "per-response self-identification oracle (origin echoes method/Host/URI into body and headers) under concurrent traffic with forced shard collisions and constant eviction; race detector + checkptr; dispatcher-level entry identity",
-   "156 near-identical keys (slash/digit/case/escape differences, queries differing in one byte or only by '?', three hosts, GET vs HEAD, 1.8 kB URIs differing in the last byte, 60 keys forced into one shard via MemHash) on caches of size 8/24/64, 32 concurrent clients: every 2xx answer must echo exactly the requester's method, Host and URI; one million generated keys at the dispatcher level must resolve to pairwise distinct, stable entries.",
+   "220 near-identical keys (slash/digit/case/escape differences, queries differing in one byte or only by '?', five hosts incl. one with a port and one differing in case, GET vs HEAD, 1.8 kB URIs differing in the last byte, 60 keys forced into one shard via MemHash) on caches of size 8/24/64 and a store-backed one of 16, lifetime 1 s so that entries are also refetched after expiry, 32 concurrent clients: every 2xx answer must echo exactly the requester's method, Host and URI; one million generated keys at the dispatcher level must resolve to pairwise distinct, stable entries.",
    "the origin's echo is ground truth; evictions are observed through the eviction hook (tens of thousands per run)",
    "DESIGN.md 6/C06"),
  "C09": ("inproc", "exploration",
    "round-trip behavioural equivalence monitor + byte-level mutation with panic/hang/allocation monitors in isolated child processes",
-   "Structured entries (all states, 0-200 header lines incl. UTF-8, control and non-UTF-8 bytes, every subset of body variants up to 2 MiB, profile names, filters, extreme clock values and lifetimes) are encoded, decoded and compared through the exported API (Get/Age/Fill for 6 Accept-Encoding values at +0,+1,+T,+T+1 s); on 200 valid records: truncation at every offset must error, bit flips, length-field edits, splices, random strings and crafted filter fields must not panic, hang (20 s) or allocate more than 32x input + 1 MiB (MemStats delta). A dead child is a verdict with the logged case index as witness.",
+   "Structured entries (all states, 0-200 header lines incl. UTF-8, control and non-UTF-8 bytes, every subset of body variants up to 2 MiB, profile names, filters, extreme clock values and lifetimes) are encoded, decoded and compared through the exported API (Get/Age/Fill for 6 Accept-Encoding values at +0,+1,+T,+T+1 s); on 200 valid records: truncation at every offset must error, bit flips, length-field edits, splices, random strings and crafted filter fields must not panic, hang (20 s) or allocate more than 32x input + 1 MiB (MemStats delta); records with different settings are decoded by 8 goroutines at once and must re-encode to themselves. A dead child is a verdict with the logged case index as witness.",
    "truncation of a bare response record is not judged; thorough tier multiplies batches (40) instead of coverage-guided fuzzing",
    "DESIGN.md 6/C09"),
  "C12": ("inproc", "exploration",
    "round-trip oracle with pike's, standard and independent (gzip CLI, python zlib, zstd CLI) decoders; crash/hang monitor in isolated child processes",
-   "pike's Gzip/Brotli at levels -1..12 plus out-of-range 99/-7 on lengths 0..64, powers of two +-1 up to 1 MiB and random lengths with random/text/runs/zero content; valid streams of all five formats from self-checked reference encoders (multi-member gzip, zstd CLI output, ratios beyond 200x for lz4 and far more for br/zst) must be restored exactly by pike's decoders; malformed streams (truncation incl. every offset of small streams, bit flips, header edits, random bytes, doubled streams) under a per-case watchdog in a child process.",
+   "pike's Gzip/Brotli at levels -1..12 plus out-of-range 99/-7 on lengths 0..64, powers of two +-1 up to 1 MiB and random lengths with random/text/runs/zero content; valid streams of all five formats from self-checked reference encoders (multi-member gzip, zstd CLI output, ratios beyond 200x for lz4 and far more for br/zst) must be restored exactly by pike's decoders; earlier results are kept and re-verified after later operations (no shared buffers); malformed streams (truncation incl. every offset of small streams, bit flips, header edits, random bytes, doubled streams) under a per-case watchdog in a child process.",
    "a malformed stream decoding to some bytes without error is accepted; survival + output validity stand in for memory safety of the third-party assembly decoders",
    "DESIGN.md 6/C12"),
  "C10": ("inproc", "fault_enumeration",
@@ -82,7 +82,7 @@ CHECKS = {
    "DESIGN.md 6/C10"),
  "C08": ("proc", "fault_enumeration",
    "crash-point enumeration on the real binary (self-kill at named hook points, external SIGKILL, SIGTERM) + offline check of every post-restart answer against the origin's log under a controlled clock",
-   "Real pike (race build) on a badger store with a clock-offset file. Three incarnations per case on the same store: populate and SIGKILL at quiescence; concurrent writes, hits and purges with the crash armed at the n-th passage of one of 8 hook points (before/after publishing, after persisting, after a load, between LRU removal and store delete), or SIGKILL at a random moment, or SIGTERM; restart and probe every key in the same second, at mid-life, at the exact expiry second and one second later. Each answer must be a byte-identical version of that key from the origin's log, hits only inside the original lifetime with Age continuing from the original fetch and without upstream contact, never a version whose purge completed, hit-for-pass only inside a marker's period; pike must come up after every stop.",
+   "Real pike (race build) on a badger store with a clock-offset file. Every second case uses an LRU of 32 entries for about 100 keys. Four incarnations per case on the same store: populate (8 keys sequentially, 48 in one concurrent burst) and SIGKILL at quiescence; concurrent writes, hits and purges with the crash armed at the n-th passage of one of 8 hook points (before/after publishing, after persisting, after a load, between LRU removal and store delete), or SIGKILL at a random moment, or SIGTERM; restart and probe every key in the same second, at mid-life, at the exact expiry second and one second later; kill again, move the clock past every expiry, restart and probe (first lookup after the restart). Each answer must be a byte-identical version of that key from the origin's log, hits only inside the original lifetime with Age continuing from the original fetch and without upstream contact, never a version whose purge completed, hit-for-pass only inside a marker's period; pike must come up after every stop.",
    "refetch is always allowed; SIGKILL does not model power loss; eviction/reload with an LRU smaller than the working set is exercised in-process by C04/C05/C07/C11 with scripted stores",
    "DESIGN.md 6/C08"),
  "C17": ("proc", "exploration",
@@ -92,12 +92,12 @@ CHECKS = {
    "DESIGN.md 6/C17"),
  "C16": ("proc", "exploration",
    "differential monitor between a live-updated and a freshly started real process + continuity monitor under traffic; completion observed through hook events",
-   "Per sequence a live pike process receives 2-6 random valid updates (29 mutation kinds incl. optional fields set and unset) through the real admin PUT /config or an in-place write of the file, each completion observed via the update.done hook, while a client keeps requesting an unchanged server; a second process is started on the final configuration; a probe suite derived from that configuration is run against both and compared field by field (status, label, encoding, encoded and decoded bytes, headers, which origin saw which path, query and added headers), plus cache binding between servers, the retained hit of a key cached before the updates, and that a removed server stops listening. Two directed sequences (bestCompression override and removal; server removed and re-added at once) run every time.",
+   "Per sequence a live pike process receives 2-6 random valid updates (29 mutation kinds incl. optional fields set and unset) through the real admin PUT /config or an in-place write of the file, each completion observed via the update.done hook, while a client keeps requesting an unchanged server; a second process is started on the final configuration; a probe suite derived from that configuration is run against both and compared field by field (status, label, encoding, encoded and decoded bytes, headers, which origin saw which path, query and added headers), plus cache binding between servers, the retained hit of a key cached before the updates, and that a removed server stops listening. The unchanged server gets cacheable and uncacheable traffic and its upstream has a slow health endpoint. Eight directed sequences run every time: bestCompression override and removal; server removed and re-added at once; server switched to another cache; cache renamed; compress level set then unset; two servers removed by one update; two caches on one badger store of which one is removed (persisted entries of the survivor); restart-only cache settings changed.",
    "restart-only settings are never changed; compressors are deterministic so equal levels give equal bytes",
    "DESIGN.md 6/C16"),
  "C19": ("inproc", "fault_enumeration",
    "ground-truth monitor: the driver's up/down vector vs per-origin request counters, with settling observed through health-check activity at the origins",
-   "14 (thorough 60) upstream groups in one process covering every primary/backup mix of 1-4 servers, five policies, ping-path and port health checks; origins are really stopped and restarted on the same port in phases (all down, primaries down, first down, random, recovery). After each change the driver waits for two health-check rounds observed after the change on a live server (11.5 s if none), then 12 sequential requests per group must go to healthy primaries, to healthy backups only when no primary is healthy, be balanced within 1 under round-robin, or fail with a 5xx within 2 s when nothing is healthy; traffic must resume after recovery.",
+   "14 (thorough 100) upstream groups in one in-process pike whose unchanged configuration is re-applied before odd phases, plus two groups behind the real binary (eight round-robin primaries and primary+backup, all down / all up alternately: more than eight transitions to sick, no alarm URL), covering every primary/backup mix of 1-4 servers, five policies, ping-path and port health checks; origins are really stopped and restarted on the same port in phases (all down, primaries down, first down, random, recovery). After each change the driver waits for two health-check rounds observed after the change on a live server (11.5 s if none), then 12 sequential requests per group must go to healthy primaries, to healthy backups only when no primary is healthy, be balanced within 1 under round-robin, or fail with a 5xx within 2 s when nothing is healthy; traffic must resume after recovery.",
    "the upstream library's 5 s ticker has no clock seam (wall-clock bound); behaviour inside the unsettled window is not judged",
    "DESIGN.md 6/C19"),
  "C20": ("inproc", "exploration",
